@@ -59,6 +59,12 @@
     # a call that raises synchronously (invalid data) followed, in the same fiber turn, by a real wait
     [:badw pi tmo inner] (let [t (make-thunk inner chans)]
                            (fn [] (protect (ev/write ((pipes pi) 1) 12345 tmo)) (t)))
+    # a wait started by a nested fiber inside a callback from C (it is turned into an error there), then a real wait
+    [:cca s inner] (let [t (make-thunk inner chans)]
+                     (fn []
+                       (protect (string/replace "a" (fn [x] (resume (fiber/new (fn [] (ev/sleep s)))) "b") "a"))
+                       (protect (peg/match ~(cmt 1 ,(fn [& xs] (resume (fiber/new (fn [] (ev/take (ev/chan))))) true)) "a"))
+                       (t)))
     # net/read rejected for an invalid byte count (with a timeout), then a real wait in the same fiber turn
     [:badnr tmo inner] (let [t (make-thunk inner chans)]
                          (fn [] (protect (net/read (sock) -1 nil tmo)) (protect (net/chunk (sock) 1.5 nil tmo))
